@@ -35,6 +35,46 @@ added = {
  "C20-4": "C20.4 narrowing rule extended to the value renderers",
 }
 
+added.update({
+ "C01-6": "C01.3d a number that may be the cached balance is rewritten only by the cache owners (new)",
+ "C01-7": "C01.3e only a number that already contains the grant is reset to zero (new)",
+ "C02-7": "C02.2 sign: the meet of the analysis no longer forgets a cell rewritten on one path only (analysis made sound)",
+ "C03-7": "C03.10 the unbounded gate (shared with C01.2/C04.5b)",
+ "C04-6": "C04.5f cache owners (new)",
+ "C04-7": "C04.5h @world recognised on the evaluated name (new)",
+ "C09-6": "C09.6 evaluated numbers read-only (shared)",
+ "C10-6": "C10.2e an account enters the query where an asset was found missing (new)",
+ "C11-7": "C11.5 query completeness (shared with C09/C10)",
+ "C13-6": "C13.7 the text of a variable reaches its reader unmodified (new)",
+ "C13-7": "C13.8 evaluated numbers read-only / no in-place operation on a shallow copy (shared)",
+ "C14-6": "C14.6 the renderer cuts lines at the character the lexer counts (new)",
+ "C16-7": "C16.8 an infix expression is inferred the type of its left operand (new)",
+ "C17-7": "C17.10 a diagnostic about an @world address does not depend on the bound (new)",
+ "C19-6": "C19.9 the checker is never handed the address of a local copy of a node (new)",
+ "C20-7": "C20.6 no message is used as a format string (new)",
+})
+
+def table(rnd):
+    rows = []
+    own1 = tot = ownNow = any1 = 0
+    for d in sorted(glob.glob('/verif/seeded/C*')):
+        m = json.load(open(d + '/meta.json'))
+        if m.get('round') != rnd:
+            continue
+        tot += 1
+        first = m.get('first_triage_checks_that_fire', [])
+        if first:
+            any1 += 1
+        if m['breaks_property'] in first:
+            own1 += 1
+        if m.get('own_property_check_fires'):
+            ownNow += 1
+        i = m['id']
+        rows.append(f"| {i} | {title(i)} | {' '.join(first) or 'none'} | {' '.join(m['checks_that_fire']) or 'none'} | {added.get(i, '')} |")
+    return rows, own1, any1, tot, ownNow
+
+rows3, own3, any3, tot3, ownNow3 = table(3)
+
 rows = []
 own1 = tot = ownNow = 0
 for d in sorted(glob.glob('/verif/seeded/C*')):
@@ -142,12 +182,36 @@ through the verified helpers `GtEq`/`Contains`" - would fire on a correct refact
 was not added. The change is reported by C18 (the search predicate dereferences nil placeholders of a partial tree) and
 by the panic inventory.
 
-New rules of this round are in `rules/round2.go`, `rules/lenfacts.go`, `rules/flags.go`; each was run against the benign
+New rules of round 2 are in `rules/round2.go`, `rules/lenfacts.go`, `rules/flags.go`; each was run against the benign
 corpus before it was kept. Two first versions did raise false alarms there and were narrowed: *fetch-first* first counted
 helpers that read the cache on behalf of the fetch function itself (now: leaf readers that return a number; the fetch
 function is atomic; a callee "must fetch" if its successful returns do and the caller leaves on its error), and
 *descend-on-every-path* first fired on the balance-collecting traversal, which legitimately skips the address of an
 unbounded overdraft (now: not applied to that traversal, which has its own rules C10.1/C10.2d).
+
+### 10.8 Seeded changes, round 3 (two per property, told what earlier rounds had found)
+
+Twenty more fresh sub-agents were told which kinds of change rounds 1 and 2 had already produced (removed clamps, swapped
+comparisons, machine-word fast paths, dropped error checks, early returns, state shared between nested constructs) and
+asked for something else: ordering, aliasing, one-combination conditions, two functions that must agree. All 40 were
+confirmed (`scripts/triage.sh <Cxx> <i> w3`) and kept as `/verif/seeded/Cxx-6..7`. With the checks as they were:
+**""" + f"{own3} of {tot3}" + """ reported by their own property's check**, """ + f"{any3}" + """ by at least one. After the additions
+(`rules/round3.go`, each run against the whole benign corpus before it was kept): **""" + f"{ownNow3} of {tot3}" + """**.
+
+| id | change | reported at first triage by | reported now by | rule added or shared for the own property |
+|---|---|---|---|---|
+""" + "\n".join(rows3) + """
+
+One of these exposed a **soundness hole of the sign analysis itself** (C02-7): at a control-flow merge, a cell that had
+been rewritten in place on one path only was dropped from the state and its sign recomputed from its definition (a fresh
+`new(big.Int)`: zero). The meet now joins the written sign with the definitional sign on the other side. A second hole
+found while fixing a benign case: elements appended through the one-element array of `append` landed in a different
+bucket than the slice they were appended to; buckets are now keyed by element type.
+
+Not reported by its own property's check: **C06-6** (the leftover-unit loop skips clauses whose portion is zero). "Leftover
+units go to the earliest clauses in order" is the loop-shape rule C06.4 that was dropped as brittle in 10.3; I found no
+formulation that stays silent on the refactorings of the corpus (`r3-allot-*` rewrite that loop three different ways).
+Still not reported by C19: C19-4 (see 10.7).
 """
 s = open('/verif/DESIGN.md').read()
 i = s.find('### 10.6')
